@@ -107,9 +107,56 @@ def unknown_edges(out_path):
     return seen
 
 
+def idle_notify(ctx):
+    """8. Waiting on the wake-up channel of an idling session (spec/IdleNotify.tla): TLC checks the design (every command
+    completes whatever the idling client does; no lost wake-up) and that the blocking-send variant gets stuck (guard);
+    every scenario (client behaviour x size of the burst relative to the channel) is run on the real server and
+    IdleNotifyTrace judges what happened."""
+    r = ctx.tlc_ok("IdleNotify", "IdleNotify_mc.cfg", timeout=600)
+    bad = ctx.tlc("IdleNotify", "IdleNotify_blocking.cfg", timeout=600, count=False)
+    if bad.status != "violation" or "Invariant NoStuck is violated" not in open(bad.out_path, errors="replace").read():
+        raise vlib.Infra("IdleNotify_blocking.cfg should violate NoStuck (vacuity guard) but TLC says %s" % bad.status)
+    g = ctx.tlc("IdleNotifyGen", "IdleNotifyGen.cfg", timeout=600, count=False, out_name="idlegen.out")
+    if g.status != "ok":
+        raise vlib.Infra("IdleNotifyGen failed: %s" % (g.detail or g.tail))
+    binp = ctx.build("idlenotify")
+    tr = os.path.join(ctx.scratch, "idlenotify.ndjson")
+    reps = 2 if ctx.tier == "quick" else 12
+    recs, rc, err = ctx.harness(binp, ["run", g.out_path, tr, "-seed", ctx.seed, "-reps", reps], timeout=1500, allow_fail=True)
+    if rc != 0:
+        raise vlib.Infra("idlenotify harness exited %d: %s" % (rc, err[-800:]))
+    s = ctx.summary(recs)
+    res = ctx.tlc("IdleNotifyTrace", "IdleNotifyTrace.cfg", workers=1, timeout=600, count=False, env={"TRACE_FILE": tr},
+                  out_name="idletrace.out")
+    txt = open(res.out_path, errors="replace").read()
+    if res.status != "ok":
+        raise vlib.Infra("IdleNotifyTrace did not walk the records: %s" % (res.detail or res.tail))
+    nbad = 0
+    seen_i = set()
+    for m in re.finditer(r'<<"BAD", "(.*)">>', txt):
+        b = json.loads(json.loads('"' + m.group(1) + '"'))
+        if b["i"] in seen_i:
+            continue
+        seen_i.add(b["i"])
+        rec = b["rec"]
+        what = "stuck" if (rec["prod"] != "done" or rec["other"] != "done") else "not-told"
+        ctx.mismatch("%s/%s/%s" % (what, rec["client"], rec["cls"]),
+                     "idling client %s, burst of %d changes (%s the capacity of the wake-up channel): producer's STORE %s, third "
+                     "session's command %s, idling client told about %d changes" % (rec["client"], rec["burst"], rec["cls"],
+                                                                                    rec["prod"], rec["other"], rec["seen"]),
+                     {"kind": "idlenotify", "case": {"client": rec["client"], "cls": rec["cls"], "burst": rec["burst"],
+                                                      "delay_us": rec["delay_us"]}})
+        nbad += 1
+    ctx.cov["traces_validated_against_impl"] += s["behaviours"] - nbad
+    ctx.cov["evaluations"] += s["behaviours"]
+    ctx.cov["distinct_nontrivial"] += s.get("nontrivial", 0)
+    return {"mc_states": r.distinct, "scenarios": s["behaviours"], "rejected": nbad}
+
+
 def run(ctx):
     quick = ctx.tier == "quick"
     t0 = time.time()
+    idle = idle_notify(ctx)
     note = selftest(ctx)
     plain, rbin, ovs = build_all(ctx)
     t_build = time.time() - t0
@@ -271,7 +318,7 @@ def run(ctx):
     ctx.finish(rule="behaviour = one TLC schedule (stuck state or complete interleaving of 2..%d concurrently running commands) "
                     "re-enacted on the real server through the lock gates, or one recorded stress epoch accepted by LocksTrace; "
                     "non-trivial = re-enacted schedules that end in a real deadlock (goroutines confirmed inside sync.(*Mutex).Lock)" % maxn,
-               extra={"binding_demo": demo, "self_test": note,
+               extra={"binding_demo": demo, "self_test": note, "idle_notify": idle,
                       "overlay": {"files": ovs.get("files"), "lock_sites": ovs.get("sites"), "structs": ovs.get("structs")},
                       "mining": {k: ms.get(k) for k in ("worlds", "instances", "templates", "nesting_templates", "max_len", "edges")},
                       "mc_states": mc_states, "stuck_states_by_sig": stuck_sigs, "termination": live,
@@ -313,6 +360,14 @@ def binding_demo(ctx, tr):
 def replay(ctx, path):
     data = json.load(open(path))
     rp = data.get("replay")
+    if isinstance(rp, dict) and rp.get("kind") == "idlenotify":
+        p = os.path.join(ctx.scratch, "case.json")
+        json.dump(rp["case"], open(p, "w"))
+        binp = ctx.build("idlenotify")
+        tr = os.path.join(ctx.scratch, "one.ndjson")
+        ctx.harness(binp, ["one", p, tr], timeout=300)
+        print("observed: " + open(tr).read().strip())
+        return
     if isinstance(rp, dict) and rp.get("kind") == "trace":
         if not os.environ.get("EDGES_FILE"):
             plain, _, _ = build_all(ctx, race=False)
